@@ -109,6 +109,10 @@ type typeFacts struct {
 	squash                                      bool // an inline field spelt `squash`
 	ifaceField, ifaceList, ifaceMap             bool // interface{} as field type, as element type of a list, of a map
 	tagOnIface                                  bool // D61: validate tag on a field of type interface{}
+	// N-C04-1: a validate tag on a place whose value the code builds through the Unpacker branch of reifyPrimitive (a nil
+	// pointer to, or an interface holding, a primitive-kind type with a pointer-receiver Unpack method): the tag
+	// validators are handed the pointer the branch allocates instead of the value; required, min and max pass
+	tagOnPtrToUnpacker, unpackerPrim bool
 }
 
 func hasValidators(td *gen.TD) bool {
@@ -129,6 +133,9 @@ func (f *typeFacts) scan(td *gen.TD) {
 	}
 	if td.Kind == "named:string" {
 		f.namedString = true
+	}
+	if selfUnpacking[catBase(td.Kind)] != "" && td.Shape().IsLeaf() {
+		f.unpackerPrim = true
 	}
 	if strings.HasPrefix(td.Kind, "named:") {
 		f.named = true
@@ -205,6 +212,9 @@ func (f *typeFacts) scan(td *gen.TD) {
 				}
 				if nptr > 0 && base.Shape().Kind == "map" {
 					f.tagOnPtrToMap = true
+				}
+				if nptr > 0 && selfUnpacking[catBase(base.Kind)] != "" && base.Shape().IsLeaf() {
+					f.tagOnPtrToUnpacker = true
 				}
 				// (the code applies the tag to nested collections as well)
 				for x := fd.T; x != nil && x.Shape().Kind != "struct"; x = x.Shape().Elem {
@@ -297,6 +307,7 @@ func (f *typeFacts) avoided() string {
 		{"D23", f.tagOnPtr}, {"D30", f.ptrToColl}, {"D32", f.tagOnPtrToMap},
 		{"D35", f.mapWithValidator}, {"D41", f.tagOnArray}, {"D47", f.tagOnNamedString}, {"D49", f.ptrPtrValidator},
 		{"D55", f.inlineTags["map"]}, {"D61", f.tagOnIface},
+		{"N-C04-1", f.tagOnPtrToUnpacker || (f.tagOnIface && f.unpackerPrim)},
 	} {
 		if c.hit && open(c.id) {
 			return c.id
